@@ -36,6 +36,9 @@ def cases(shard, tier):
         for dt in FBIG:
             for op in ("sum_m", "mean_m", "mean_f"):
                 yield [[2, 1, 1], dt, "fbig", op]
+        # a single column of float32 cells whose exact total needs more than float32's 24 bits
+        for op in ("sum_m", "sum_f", "mean_m"):
+            yield [[1, 1, 1, 0], "float32", "f32col", op]
         return
     lens = shard["lens"]
     for dt in (DTS if tier == "quick" else DTS + ["int16", "int32"]):
@@ -60,12 +63,15 @@ def check(case, acc):
     if len(set(lens)) > 1:
         acc.feature("rows_of_different_lengths")
         acc.nontrivial()
-    if k == "fbig":
+    if k == "f32col":
+        acc.feature("narrow_float_column_total")
+        flat = np.array([16777216.0, 1.0, 1.0], dtype=dt)
+    elif k == "fbig":
         acc.feature("narrow_float_column_total")
         flat = np.array(FBIG[dt], dtype=dt)
     else:
         flat = dsl.pattern(dt, size, k) if k != "big" else np.array(BIG[dt], dtype=dt)
-    if k not in ("big", "fbig") and flat.dtype.kind in "iu" and flat.dtype.itemsize == 8:
+    if k not in ("big", "fbig", "f32col") and flat.dtype.kind in "iu" and flat.dtype.itemsize == 8:
         # keep exact-sum territory: |v| < 2**31 (the >2**53 class is a separate, named case of the thorough tier)
         flat = (flat % np.array(1 << 31, dtype=flat.dtype)).astype(flat.dtype) if flat.dtype.kind == "u" else \
             np.clip(flat, -(1 << 31), 1 << 31).astype(flat.dtype)
